@@ -609,6 +609,37 @@ static std::string handle(std::vector<std::string> &a)
     delete m;
     return hex(data);
   }
+  if (c == "modelong")
+  {
+    // modelong e|d TYPE KEY IV NBLOCKS POS,POS,... : one stream object driven through NBLOCKS all-zero blocks; prints the output
+    // blocks at the listed positions (a stream that runs for gigabytes: position counters kept in 32 bits wrap there)
+    bytes k = unhex(a[3]), iv = unhex(a[4]);
+    unsigned long long n = strtoull(a[5].c_str(), NULL, 10);
+    std::vector<unsigned long long> pos;
+    for (auto &x : split(a[6], ','))
+      pos.push_back(strtoull(x.c_str(), NULL, 10));
+    iv.resize(20);
+    AesFactory f(k.data());
+    f.loadiv(iv.data());
+    Aesmode *m = f.createCryMaster(a[1] == "e", (u8_t)atoi(a[2].c_str()));
+    if (m == NULL)
+      return "NULL";
+    std::string r;
+    size_t pi = 0;
+    u8_t blk[16];
+    for (unsigned long long j = 0; j < n && pi < pos.size(); ++j)
+    {
+      memset(blk, 0, 16);
+      m->runcry(blk);
+      if (j == pos[pi])
+      {
+        r += (pi ? "," : "") + hex(blk, 16);
+        ++pi;
+      }
+    }
+    delete m;
+    return r;
+  }
   if (c == "hstr")
   {
     bytes m = unhex(a[2]);
